@@ -103,15 +103,715 @@ theorem top_eq_topU (env : Env) (T : Ty) (x : Val) :
   rw [top.eq_def]
   cases hU : env.under T <;> cases x <;> simp only [topU]
   case ptr.ptr R a v =>
-    simp only [inlinePtr]
-    rw [field.eq_1, top.eq_def env R v]
-    cases hR : env.under R <;> simp only [Bool.false_eq_true, if_false]
-    cases R.isNamed <;> simp only [Bool.false_eq_true, if_false, if_true]
-    cases v <;> rfl
+    simp only [inlinePtr, field.eq_1]
+    split
+    · rename_i fs hR
+      simp only [hR]
+      by_cases hN : R.isNamed = true
+      · simp only [hN, if_true]
+        rw [top.eq_def env R v, hR]
+      · simp only [hN, Bool.false_eq_true, if_false]
+    · rename_i hR
+      simp only [Bool.false_eq_true, if_false]
 
 @[simp] theorem field_eq_top (env : Env) (F : Ty) (x : Val) : field env F x = top env F x :=
   field.eq_1 env F x
 
 end Hash
+
+/-! ## Structurally equal values hash alike -/
+
+theorem pairwise_mem_cases {α : Type} {R : α → α → Prop} {l : List α} (h : l.Pairwise R)
+    {a b : α} (ha : a ∈ l) (hb : b ∈ l) : a = b ∨ R a b ∨ R b a := by
+  induction l with
+  | nil => cases ha
+  | cons c t ih =>
+    rw [List.pairwise_cons] at h
+    rcases List.mem_cons.1 ha with rfl | ha' <;> rcases List.mem_cons.1 hb with rfl | hb'
+    · exact .inl rfl
+    · exact .inr (.inl (h.1 b hb'))
+    · exact .inr (.inr (h.1 a ha'))
+    · exact ih h.2 ha' hb'
+
+/-- in a typed map (distinct keys) two entries with `==` keys are one and the same entry -/
+theorem entry_unique {env : Env} (hf : env.flagsOk = true) {K V : Ty} {ys : Val}
+    (hc : canEqual env K = true) (hys : entriesHaveType env K V ys = true)
+    (dy : keysDistinct ys = true) {k1 w1 k2 w2 : Val} (h1 : .pair k1 w1 ∈ ys.toList)
+    (h2 : .pair k2 w2 ∈ ys.toList) (he : goEq k1 k2 = true) :
+    Val.pair k1 w1 = Val.pair k2 w2 := by
+  have hp := keysDistinct_pairwise ys (entriesHaveType_isEntrySpine ys hys) dy
+  rcases pairwise_mem_cases hp h1 h2 with h | h | h
+  · exact h
+  · have := h k1 w1 k2 w2 rfl rfl
+    rw [he] at this; cases this
+  · have := h k2 w2 k1 w1 rfl rfl
+    rw [goEq_symm hf hc (entriesHaveType_mem ys hys h2).1 (entriesHaveType_mem ys hys h1).1,
+      he] at this
+    cases this
+
+/-- two entry spines whose keys agree position-wise, and whose entries with `==` keys have keys
+that hash alike and values that hash alike, hash alike -/
+theorem Hash.entries_congr (env : Env) (K V : Ty) :
+    ∀ (sx sy : Val) (h : UInt64), isEntries sx = true → isEntries sy = true → keysAgree sx sy →
+      (∀ e ∈ sx.toList, ∀ e' ∈ sy.toList, keyEq e e' →
+        Hash.top env K (ekey e) = Hash.top env K (ekey e') ∧
+        Hash.top env V (evalue e) = Hash.top env V (evalue e')) →
+      Hash.entries env K V sx h = Hash.entries env K V sy h := by
+  intro sx
+  induction sx with
+  | snil =>
+    intro sy h _ hy ha _
+    cases sy with
+    | snil => rfl
+    | scons _ _ => simp [keysAgree, toList, keysAgreeL] at ha
+    | _ => simp [isEntries] at hy
+  | scons e r ihe ihr =>
+    intro sy h hx hy ha hQ
+    clear ihe
+    cases e <;> simp only [isEntries, Bool.false_eq_true] at hx
+    rename_i k v
+    cases sy with
+    | scons e' s =>
+      cases e' <;> simp only [isEntries, Bool.false_eq_true] at hy
+      rename_i k' w
+      simp only [keysAgree, toList, keysAgreeL] at ha
+      have hq := hQ (.pair k v) (by simp [toList]) (.pair k' w) (by simp [toList]) ha.1
+      simp only [ekey, evalue] at hq
+      rw [Hash.entries, Hash.entries]
+      simp only [Hash.field_eq_top, hq.1, hq.2]
+      cases Hash.top env K k' with
+      | panic => rfl
+      | ok ck =>
+        cases Hash.top env V w with
+        | panic => rfl
+        | ok cv =>
+          simp only [Res.bind_ok]
+          exact ihr s _ hx hy ha.2 (fun e he e' he' =>
+            hQ e (by simp [toList, he]) e' (by simp [toList, he']))
+    | snil => simp [keysAgree, toList, keysAgreeL] at ha
+    | _ => simp [isEntries] at hy
+  | _ => intro sy h hx; simp [isEntries] at hx
+
+/-- the induction invariant of `hash_respects_structEq` for a value `x` in its three roles: a value,
+a field spine, an element spine -/
+structure HashOK (env : Env) (x : Val) : Prop where
+  top : ∀ T y, hasType env T x = true → hasType env T y = true → nanFree x = true →
+    nanFree y = true → Spec.structEq env T x y = true → Hash.top env T x = Hash.top env T y
+  fields : ∀ skip fs ys h, fieldsHaveType env fs x = true → fieldsHaveType env fs ys = true →
+    nanFree x = true → nanFree ys = true → Spec.fieldsEq env fs x ys = true →
+    Hash.fields env skip fs x h = Hash.fields env skip fs ys h
+  elems : ∀ E ys h, allHaveType env E x = true → allHaveType env E ys = true →
+    nanFree x = true → nanFree ys = true → Spec.seqEq env E x ys = true →
+    Hash.elems env E x h = Hash.elems env E ys h
+
+theorem hashOK {env : Env} (hf : env.flagsOk = true) (x : Val) : HashOK env x := by
+  induction x using Val.strongInduction with
+  | step x ih =>
+  refine ⟨?_, ?_, ?_⟩
+  · intro T y hx hy nx ny he
+    rw [Hash.top_eq_topU, Hash.top_eq_topU env T y]
+    have hnn := Env.under_not_named hf T
+    cases hU : env.under T with
+    | basic b =>
+      rw [structEq_basic hU] at he
+      rw [hasType_basic hU] at hx hy
+      simp only [Hash.topU]
+      exact leaf_eq_of_leafEq hx hy he
+    | ptr R =>
+      rw [structEq_ptr hU] at he
+      rcases hasType_ptr_inv hU hx with rfl | ⟨a, v, rfl, hv⟩ <;>
+        rcases hasType_ptr_inv hU hy with rfl | ⟨b, w, rfl, hw⟩ <;>
+        simp only [Bool.false_eq_true] at he
+      · rfl
+      · simp only [nanFree] at nx ny
+        simp only [Hash.topU]
+        rw [(ih v (by simp <;> omega)).top R w hv hw nx ny he]
+    | struct fs =>
+      obtain ⟨xs, rfl, hxs⟩ := hasType_struct_inv hU hx
+      obtain ⟨ys, rfl, hys⟩ := hasType_struct_inv hU hy
+      rw [structEq_struct hU] at he
+      simp only [nanFree] at nx ny
+      simp only [Hash.topU]
+      rw [(ih xs (by simp <;> omega)).fields _ fs ys 17 hxs hys nx ny he]
+    | slice E =>
+      rw [structEq_slice hU] at he
+      rcases hasType_slice_inv hU hx with rfl | ⟨a, sp, xs, rfl, hxs⟩ <;>
+        rcases hasType_slice_inv hU hy with rfl | ⟨b, sp', ys, rfl, hys⟩ <;>
+        simp only [Bool.false_eq_true] at he
+      · rfl
+      · simp only [nanFree] at nx ny
+        simp only [Hash.topU]
+        exact (ih xs (by simp <;> omega)).elems E ys 17 hxs hys nx ny he
+    | array n E =>
+      obtain ⟨xs, rfl, -, hxs⟩ := hasType_array_inv hU hx
+      obtain ⟨ys, rfl, -, hys⟩ := hasType_array_inv hU hy
+      rw [structEq_array hU] at he
+      simp only [nanFree] at nx ny
+      simp only [Hash.topU]
+      exact (ih xs (by simp <;> omega)).elems E ys 17 hxs hys nx ny he
+    | map K V =>
+      rw [structEq_map hU] at he
+      rcases hasType_map_inv hU hx with rfl | ⟨a, xs, rfl, hc, hxs, dx⟩ <;>
+        rcases hasType_map_inv hU hy with rfl | ⟨b, ys, rfl, -, hys, dy⟩ <;>
+        simp only [Bool.false_eq_true] at he
+      · rfl
+      · simp only [Bool.and_eq_true, beq_iff_eq] at he
+        obtain ⟨hl, hin⟩ := he
+        simp only [nanFree] at nx ny
+        simp only [Hash.topU]
+        have sx := entriesHaveType_isEntrySpine xs hxs
+        have sy := entriesHaveType_isEntrySpine ys hys
+        -- every entry of `xs` has a partner in `ys`: equal key, equal value
+        have partner : ∀ k v, .pair k v ∈ xs.toList → ∃ k' w, .pair k' w ∈ ys.toList ∧
+            Spec.structEq env K k k' = true ∧ Spec.structEq env V v w = true :=
+          fun k v hm => (valueAt_iff ys sy).1 ((entriesIn_iff xs sx).1 hin k v hm)
+        have sub : KeysSub xs.toList ys.toList := by
+          intro e he
+          obtain ⟨k, v, rfl⟩ := isEntrySpine_mem xs sx he
+          obtain ⟨k', w, hm, hk, -⟩ := partner k v he
+          refine ⟨.pair k' w, hm, ?_⟩
+          simp only [keyEq, ekey]
+          rw [goEq_eq_structEq hf k' hc (entriesHaveType_mem xs hxs he).1]; exact hk
+        -- hence the key-sorted spines agree on keys position by position
+        have hag := Cmp.sortEntries_keysAgree_typed hf hc hxs hys nx ny dx dy hl sub
+        apply Hash.entries_congr env K V _ _ 17
+          (isEntries_sortEntries (Cmp.isEntries_of_entriesHaveType hxs))
+          (isEntries_sortEntries (Cmp.isEntries_of_entriesHaveType hys)) hag
+        intro e he e' he' hke
+        rw [mem_sortEntries] at he he'
+        obtain ⟨k, v, rfl⟩ := isEntrySpine_mem xs sx he
+        obtain ⟨k', w, rfl⟩ := isEntrySpine_mem ys sy he'
+        simp only [keyEq, ekey] at hke
+        simp only [ekey, evalue]
+        obtain ⟨hk, hv⟩ := entriesHaveType_mem xs hxs he
+        obtain ⟨hk', hw⟩ := entriesHaveType_mem ys hys he'
+        have ne := nanFree_mem xs nx he
+        have ne' := nanFree_mem ys ny he'
+        simp only [nanFree, Bool.and_eq_true] at ne ne'
+        -- the partner of `(k, v)` is the entry `(k', w)` at the same sorted position
+        obtain ⟨k2, w2, hm2, hk2, hv2⟩ := partner k v he
+        have hk2' := (entriesHaveType_mem ys hys hm2).1
+        have g2 : goEq k k2 = true := by rw [goEq_eq_structEq hf k2 hc hk]; exact hk2
+        have g3 : goEq k2 k' = true :=
+          goEq_trans hf hc hk2' hk (by rw [goEq_symm hf hc hk2' hk]; exact g2) hke
+        have hu := entry_unique hf hc hys dy hm2 he' g3
+        cases hu
+        have sz : sizeOf (Val.pair k v) < sizeOf xs := sizeOf_lt_of_mem_toList xs he
+        have sz' : sizeOf k < sizeOf (Val.pair k v) ∧ sizeOf v < sizeOf (Val.pair k v) := by
+          constructor <;> simp <;> omega
+        refine ⟨(ih k (by simp <;> omega)).top K k' hk hk' ne.1 ne'.1
+            (by rw [← goEq_eq_structEq hf k' hc hk]; exact hke),
+          (ih v (by simp <;> omega)).top V w hv hw ne.2 ne'.2 hv2⟩
+    | named i => rw [hU] at hnn; simp [Ty.isNamed] at hnn
+    | _ => rw [hasType_bad (by rw [hU])] at hx; cases hx
+  · intro skip fs ys h hx hy nx ny he
+    rcases fieldsHaveType_inv hx with ⟨rfl, rfl⟩ | ⟨F, rest, a, r, rfl, rfl, ha, hr⟩
+    · rcases fieldsHaveType_inv hy with ⟨-, rfl⟩ | ⟨_, _, _, _, h', _⟩
+      · rfl
+      · cases h'
+    · rcases fieldsHaveType_inv hy with ⟨h', -⟩ | ⟨F', rest', b, s, h', rfl, hb, hs⟩
+      · cases h'
+      · cases h'
+        rw [Spec.fieldsEq] at he
+        simp only [Bool.and_eq_true] at he
+        simp only [nanFree, Bool.and_eq_true] at nx ny
+        rw [Hash.fields, Hash.fields]
+        simp only [Hash.field_eq_top]
+        rw [(ih a (by simp <;> omega)).top F b ha hb nx.1 ny.1 he.1]
+        have IH := fun sk h' => (ih r (by simp <;> omega)).fields sk rest s h' hr hs nx.2 ny.2 he.2
+        split
+        · exact IH _ _
+        · cases Hash.top env F b with
+          | panic => rfl
+          | ok c => simp only [Res.bind_ok]; exact IH _ _
+  · intro E ys h hx hy nx ny he
+    rcases allHaveType_inv hx with rfl | ⟨a, r, rfl, ha, hr⟩
+    · rcases allHaveType_inv hy with rfl | ⟨_, _, rfl, _⟩
+      · rfl
+      · rw [seqEq_def] at he; simp at he
+    · rcases allHaveType_inv hy with rfl | ⟨b, s, rfl, hb, hs⟩
+      · rw [seqEq_def] at he; simp at he
+      · rw [Spec.seqEq] at he
+        simp only [Bool.and_eq_true] at he
+        simp only [nanFree, Bool.and_eq_true] at nx ny
+        rw [Hash.elems, Hash.elems]
+        simp only [Hash.field_eq_top]
+        rw [(ih a (by simp <;> omega)).top E b ha hb nx.1 ny.1 he.1]
+        cases Hash.top env E b with
+        | panic => rfl
+        | ok c =>
+          simp only [Res.bind_ok]
+          exact (ih r (by simp <;> omega)).elems E s _ hr hs nx.2 ny.2 he.2
+
+/-! ## Hashing a well-typed value never panics -/
+
+theorem leaf_total {b : Basic} {x : Val} (hx : basicHasType b x = true) :
+    ∃ h, Hash.leaf x = .ok h := by
+  cases b <;> cases x <;> (try (simp [basicHasType] at hx; done)) <;> exact ⟨_, rfl⟩
+
+theorem Hash.entries_total (env : Env) (K V : Ty) :
+    ∀ (sx : Val) (h : UInt64), isEntries sx = true →
+      (∀ e ∈ sx.toList, (∃ c, Hash.top env K (ekey e) = .ok c) ∧
+        (∃ c, Hash.top env V (evalue e) = .ok c)) →
+      ∃ h', Hash.entries env K V sx h = .ok h' := by
+  intro sx
+  induction sx with
+  | snil => intro h _ _; exact ⟨h, by rw [Hash.entries]⟩
+  | scons e r ihe ihr =>
+    intro h hx hQ
+    clear ihe
+    cases e <;> simp only [isEntries, Bool.false_eq_true] at hx
+    rename_i k v
+    obtain ⟨⟨ck, hk⟩, ⟨cv, hv⟩⟩ := hQ (.pair k v) (by simp [toList])
+    simp only [ekey, evalue] at hk hv
+    rw [Hash.entries]
+    simp only [Hash.field_eq_top, hk, hv, Res.bind_ok]
+    exact ihr _ hx (fun e he => hQ e (by simp [toList, he]))
+  | _ => intro h hx; simp [isEntries] at hx
+
+structure HashTotal (env : Env) (x : Val) : Prop where
+  top : ∀ T, hasType env T x = true → ∃ h, Hash.top env T x = .ok h
+  fields : ∀ skip fs h, fieldsHaveType env fs x = true →
+    ∃ h', Hash.fields env skip fs x h = .ok h'
+  elems : ∀ E h, allHaveType env E x = true → ∃ h', Hash.elems env E x h = .ok h'
+
+theorem hashTotal (env : Env) (x : Val) : HashTotal env x := by
+  induction x using Val.strongInduction with
+  | step x ih =>
+  refine ⟨?_, ?_, ?_⟩
+  · intro T hx
+    rw [Hash.top_eq_topU]
+    cases hU : env.under T with
+    | basic b =>
+      rw [hasType_basic hU] at hx
+      simp only [Hash.topU]
+      exact leaf_total hx
+    | ptr R =>
+      rcases hasType_ptr_inv hU hx with rfl | ⟨a, v, rfl, hv⟩
+      · exact ⟨0, rfl⟩
+      · simp only [Hash.topU]
+        obtain ⟨c, hc⟩ := (ih v (by simp <;> omega)).top R hv
+        rw [hc]
+        split
+        · exact ⟨_, rfl⟩
+        · exact ⟨_, rfl⟩
+    | struct fs =>
+      obtain ⟨xs, rfl, hxs⟩ := hasType_struct_inv hU hx
+      simp only [Hash.topU]
+      split
+      · exact ⟨_, rfl⟩
+      · exact (ih xs (by simp <;> omega)).fields _ fs 17 hxs
+    | slice E =>
+      rcases hasType_slice_inv hU hx with rfl | ⟨a, sp, xs, rfl, hxs⟩
+      · exact ⟨0, rfl⟩
+      · simp only [Hash.topU]
+        exact (ih xs (by simp <;> omega)).elems E 17 hxs
+    | array n E =>
+      obtain ⟨xs, rfl, -, hxs⟩ := hasType_array_inv hU hx
+      simp only [Hash.topU]
+      exact (ih xs (by simp <;> omega)).elems E 17 hxs
+    | map K V =>
+      rcases hasType_map_inv hU hx with rfl | ⟨a, xs, rfl, -, hxs, -⟩
+      · exact ⟨0, rfl⟩
+      · simp only [Hash.topU]
+        have sx := entriesHaveType_isEntrySpine xs hxs
+        apply Hash.entries_total env K V _ 17
+          (isEntries_sortEntries (Cmp.isEntries_of_entriesHaveType hxs))
+        intro e he
+        rw [mem_sortEntries] at he
+        obtain ⟨k, v, rfl⟩ := isEntrySpine_mem xs sx he
+        obtain ⟨hk, hv⟩ := entriesHaveType_mem xs hxs he
+        have sz : sizeOf (Val.pair k v) < sizeOf xs := sizeOf_lt_of_mem_toList xs he
+        have sz' : sizeOf k < sizeOf (Val.pair k v) ∧ sizeOf v < sizeOf (Val.pair k v) := by
+          constructor <;> simp <;> omega
+        exact ⟨(ih k (by simp <;> omega)).top K hk, (ih v (by simp <;> omega)).top V hv⟩
+    | _ => rw [hasType_bad (by rw [hU])] at hx; cases hx
+  · intro skip fs h hx
+    rcases fieldsHaveType_inv hx with ⟨rfl, rfl⟩ | ⟨F, rest, a, r, rfl, rfl, ha, hr⟩
+    · exact ⟨h, by rw [Hash.fields]⟩
+    · rw [Hash.fields]
+      simp only [Hash.field_eq_top]
+      have IH := fun sk h' => (ih r (by simp <;> omega)).fields sk rest h' hr
+      split
+      · exact IH _ _
+      · obtain ⟨c, hc⟩ := (ih a (by simp <;> omega)).top F ha
+        simp only [hc, Res.bind_ok]
+        exact IH _ _
+  · intro E h hx
+    rcases allHaveType_inv hx with rfl | ⟨a, r, rfl, ha, hr⟩
+    · exact ⟨h, by rw [Hash.elems]⟩
+    · rw [Hash.elems]
+      simp only [Hash.field_eq_top]
+      obtain ⟨c, hc⟩ := (ih a (by simp <;> omega)).top E ha
+      simp only [hc, Res.bind_ok]
+      exact (ih r (by simp <;> omega)).elems E _ hr
+
+/-! ## Hashing never reads an address or a spare capacity -/
+
+theorem cmpKey_eraseIds (a b : Val) : cmpKey (eraseIds a) (eraseIds b) = cmpKey a b := by
+  induction a generalizing b with
+  | arr xs ih => cases b <;> first | rfl | (simp only [eraseIds, cmpKey]; exact ih _)
+  | struct xs ih => cases b <;> first | rfl | (simp only [eraseIds, cmpKey]; exact ih _)
+  | scons a r iha ihr =>
+    cases b <;> first | rfl | (simp only [eraseIds, cmpKey]; rw [iha, ihr])
+  | _ => cases b <;> rfl
+
+theorem insertEntry_eraseIds (e s : Val) :
+    insertEntry (eraseIds e) (eraseIds s) = eraseIds (insertEntry e s) := by
+  induction s with
+  | scons h t _ iht =>
+    cases e <;> cases h <;> simp [eraseIds, insertEntry]
+    rename_i k v _ k' v'
+    rw [cmpKey_eraseIds]
+    split
+    · simp [eraseIds]
+    · simp only [eraseIds] at iht
+      simp [eraseIds, iht]
+  | _ => simp [eraseIds, insertEntry]
+
+theorem sortEntries_eraseIds (s : Val) : sortEntries (eraseIds s) = eraseIds (sortEntries s) := by
+  induction s with
+  | scons e r _ ihr => simp only [eraseIds, sortEntries]; rw [ihr, insertEntry_eraseIds]
+  | _ => simp [eraseIds, sortEntries]
+
+theorem leaf_eraseIds (x : Val) : Hash.leaf (eraseIds x) = Hash.leaf x := by
+  cases x <;> rfl
+
+structure HashErase (env : Env) (x : Val) : Prop where
+  top : ∀ T, Hash.top env T (eraseIds x) = Hash.top env T x
+  fields : ∀ skip fs h, Hash.fields env skip fs (eraseIds x) h = Hash.fields env skip fs x h
+  elems : ∀ E h, Hash.elems env E (eraseIds x) h = Hash.elems env E x h
+  entries : ∀ K V h, Hash.entries env K V (eraseIds x) h = Hash.entries env K V x h
+
+theorem hashErase (env : Env) (x : Val) : HashErase env x := by
+  induction x using Val.strongInduction with
+  | step x ih =>
+  refine ⟨?_, ?_, ?_, ?_⟩
+  · intro T
+    rw [Hash.top_eq_topU, Hash.top_eq_topU env T x]
+    generalize env.under T = U
+    generalize env.skipMask T = mask
+    cases U <;> cases x <;> simp only [eraseIds, Hash.topU] <;> (try (rfl; done))
+    case ptr.ptr R a v => rw [(ih v (by simp <;> omega)).top R]
+    case slice.slice E a sp xs => exact (ih xs (by simp <;> omega)).elems E 17
+    case array.arr n E xs => exact (ih xs (by simp <;> omega)).elems E 17
+    case struct.struct fs xs => rw [(ih xs (by simp <;> omega)).fields mask fs 17]
+    case map.map K V a xs =>
+      rw [sortEntries_eraseIds]
+      exact (ih (sortEntries xs) (by rw [sizeOf_sortEntries]; simp <;> omega)).entries K V 17
+  · intro skip fs h
+    cases fs <;> cases x <;> simp only [eraseIds, Hash.fields]
+    case fcons.scons F rest a r =>
+      simp only [Hash.field_eq_top, (ih a (by simp <;> omega)).top F,
+        fun sk h' => (ih r (by simp <;> omega)).fields sk rest h']
+  · intro E h
+    cases x <;> simp only [eraseIds, Hash.elems]
+    case scons a r =>
+      simp only [Hash.field_eq_top, (ih a (by simp <;> omega)).top E,
+        fun h' => (ih r (by simp <;> omega)).elems E h']
+  · intro K V h
+    cases x <;> simp only [eraseIds, Hash.entries]
+    case scons e r =>
+      have hr := fun h' => (ih r (by simp <;> omega)).entries K V h'
+      cases e <;> simp only [eraseIds, Hash.entries]
+      case pair k v =>
+        simp only [Hash.field_eq_top, (ih k (by simp <;> omega)).top K,
+          (ih v (by simp <;> omega)).top V, hr]
+
+/-! ## Structural equality already excludes NaN -/
+
+theorem nanFree_of_leafEq {x y : Val} (h : leafEq x y = true) : nanFree x = true := by
+  cases x <;> cases y <;> simp [leafEq, fltEq] at h <;> simp [nanFree, h]
+
+theorem nanFree_of_valueAt {env : Env} {K V : Ty} {k v : Val}
+    (hk : ∀ k', Spec.structEq env K k k' = true → nanFree k = true)
+    (hv : ∀ w, Spec.structEq env V v w = true → nanFree v = true) :
+    ∀ ys, Spec.valueAt env K V k v ys = true → nanFree k = true ∧ nanFree v = true := by
+  intro ys
+  induction ys with
+  | scons e s _ ihs =>
+    intro h
+    cases e with
+    | pair k' w =>
+      rw [Spec.valueAt.eq_1, Bool.or_eq_true, Bool.and_eq_true] at h
+      rcases h with h | h
+      · exact ⟨hk k' h.1, hv w h.2⟩
+      · exact ihs h
+    | _ => rw [Spec.valueAt.eq_def] at h; simp at h
+  | _ => intro h; rw [Spec.valueAt.eq_def] at h; simp at h
+
+structure NanOK (env : Env) (x : Val) : Prop where
+  val : ∀ T y, Spec.structEq env T x y = true → nanFree x = true
+  seq : ∀ E ys, Spec.seqEq env E x ys = true → nanFree x = true
+  flds : ∀ fs ys, Spec.fieldsEq env fs x ys = true → nanFree x = true
+  ents : ∀ K V ys, Spec.entriesIn env K V x ys = true → nanFree x = true
+
+theorem nanOK (env : Env) (x : Val) : NanOK env x := by
+  induction x using Val.strongInduction with
+  | step x ih =>
+  refine ⟨?_, ?_, ?_, ?_⟩
+  · intro T y he
+    rw [Spec.structEq.eq_def] at he
+    split at he
+    · exact nanFree_of_leafEq he
+    · rfl
+    · simp only [nanFree]; exact (ih _ (by simp <;> omega)).val _ _ he
+    · rfl
+    · simp only [nanFree]; exact (ih _ (by simp <;> omega)).seq _ _ he
+    · simp only [nanFree]; exact (ih _ (by simp <;> omega)).seq _ _ he
+    · simp only [nanFree]; exact (ih _ (by simp <;> omega)).flds _ _ he
+    · rfl
+    · simp only [Bool.and_eq_true] at he
+      simp only [nanFree]; exact (ih _ (by simp <;> omega)).ents _ _ _ he.2
+    · cases he
+  · intro E ys he
+    rw [Spec.seqEq.eq_def] at he
+    split at he
+    · rfl
+    · simp only [Bool.and_eq_true] at he
+      simp only [nanFree, Bool.and_eq_true]
+      exact ⟨(ih _ (by simp <;> omega)).val _ _ he.1, (ih _ (by simp <;> omega)).seq _ _ he.2⟩
+    · cases he
+  · intro fs ys he
+    rw [Spec.fieldsEq.eq_def] at he
+    split at he
+    · rfl
+    · simp only [Bool.and_eq_true] at he
+      simp only [nanFree, Bool.and_eq_true]
+      exact ⟨(ih _ (by simp <;> omega)).val _ _ he.1, (ih _ (by simp <;> omega)).flds _ _ he.2⟩
+    · cases he
+  · intro K V ys he
+    rw [Spec.entriesIn.eq_def] at he
+    split at he
+    · rfl
+    · rename_i k v r
+      simp only [Bool.and_eq_true] at he
+      simp only [nanFree, Bool.and_eq_true]
+      exact ⟨nanFree_of_valueAt (fun k' => (ih k (by simp <;> omega)).val K k')
+          (fun w => (ih v (by simp <;> omega)).val V w) ys he.1,
+        (ih r (by simp <;> omega)).ents K V ys he.2⟩
+    · cases he
+
+/-- `Spec.structEq env T x y = true` forces `x` to be NaN-free (`NaN == NaN` is false) -/
+theorem nanFree_left_of_structEq {env : Env} {T : Ty} {x y : Val}
+    (h : Spec.structEq env T x y = true) : nanFree x = true := (nanOK env x).val T y h
+
+/-! ## The key-sorted entry sequence does not depend on the insertion order -/
+
+theorem eq_of_toList_eq {s s' : Val} (hs : isEntries s = true) (hs' : isEntries s' = true)
+    (h : s.toList = s'.toList) : s = s' := by
+  induction s generalizing s' with
+  | snil =>
+    cases s' with
+    | snil => rfl
+    | scons _ _ => simp [toList] at h
+    | _ => simp [isEntries] at hs'
+  | scons e r _ ihr =>
+    cases s' with
+    | scons e' r' =>
+      simp only [toList, List.cons.injEq] at h
+      cases e <;> simp only [isEntries, Bool.false_eq_true] at hs
+      cases e' <;> simp only [isEntries, Bool.false_eq_true] at hs'
+      rw [h.1, ihr hs hs' h.2]
+    | snil => simp [toList] at h
+    | _ => simp [isEntries] at hs'
+  | _ => simp [isEntries] at hs
+
+/-- two key-distinct entry spines over one key set that are permutations of each other have the
+same key-sorted spine (a strictly sorted permutation is unique) -/
+theorem sortEntries_eq_of_perm {P : Val → Prop} (hP : KeySet P) {xs ys : Val}
+    (hx : KeysIn P xs) (hy : KeysIn P ys) (dx : keysDistinct xs = true)
+    (dy : keysDistinct ys = true) (hp : xs.toList.Perm ys.toList) :
+    sortEntries xs = sortEntries ys := by
+  apply eq_of_toList_eq hx.sortEntries.1 hy.sortEntries.1
+  apply List.Perm.eq_of_pairwise (le := keyLt) _ (strictSorted_sortEntries hP hx dx)
+    (strictSorted_sortEntries hP hy dy)
+    ((sortEntries_perm xs).trans (hp.trans (sortEntries_perm ys).symm))
+  intro a b ha hb h1 h2
+  have := hP.antisymm (hx.sortEntries.2 a ha) (hy.sortEntries.2 b hb)
+  simp only [keyLt] at h1 h2
+  omega
+
+/-- typed form: only the KEYS have to be NaN-free -/
+theorem sortEntries_eq_of_perm_typed {env : Env} (hf : env.flagsOk = true) {K V : Ty}
+    {xs ys : Val} (hc : canEqual env K = true) (hxs : entriesHaveType env K V xs = true)
+    (hys : entriesHaveType env K V ys = true)
+    (nk : ∀ e ∈ xs.toList, nanFree (ekey e) = true)
+    (dx : keysDistinct xs = true) (dy : keysDistinct ys = true)
+    (hp : xs.toList.Perm ys.toList) : sortEntries xs = sortEntries ys := by
+  have hx' := Cmp.entriesHaveType_iff_mem.1 hxs
+  have hy' := Cmp.entriesHaveType_iff_mem.1 hys
+  exact sortEntries_eq_of_perm (Cmp.keySet_typed hf hc)
+    ⟨hx'.1, fun e he => ⟨(hx'.2 e he).1, nk e he⟩⟩
+    ⟨hy'.1, fun e he => ⟨(hy'.2 e he).1, nk e (hp.mem_iff.2 he)⟩⟩ dx dy hp
+
+/-! ## Which types plugin/hash generates code for -/
+
+namespace Hash
+
+/-- `K` can be sorted by the derived order (`deriveSort(deriveKeys(m))`): plugin/compare refuses
+unnamed structs -/
+def okKey (env : Env) : Ty → Bool
+  | .basic _ => true
+  | .named i => (env.decl? i).isSome
+  | .array _ E => okKey env E
+  | .fnil => true
+  | .fcons F r => okKey env F && okKey env r
+  | _ => false
+
+/-- `T` is supported by plugin/hash: no chan / func / interface constituent, no dangling name
+(closed world), map keys comparable and sortable. Unnamed structs and pointers to them are fine
+(unlike plugin/equal and plugin/compare). -/
+def okTy (env : Env) : Ty → Bool
+  | .basic _ => true
+  | .named i => (env.decl? i).isSome
+  | .ptr R => okTy env R
+  | .slice E => okTy env E
+  | .array _ E => okTy env E
+  | .map K V => canEqual env K && okKey env K && okTy env V
+  | .struct fs => okTy env fs
+  | .fnil => true
+  | .fcons F r => okTy env F && okTy env r
+  | .chan _ => false
+  | .func => false
+  | .iface => false
+
+/-- a declared type that may be used as a map key (it is comparable) must be sortable -/
+def okKeyDecl (env : Env) : Ty → Bool
+  | .struct fs => okKey env fs
+  | T => okKey env T
+
+/-- every declared type of the environment is supported -/
+def envOk (env : Env) : Bool :=
+  env.decls.all fun d => okTy env d.under && (!d.canEq || okKeyDecl env d.under)
+
+end Hash
+
+/-- `deriveHash` can be generated for `T`: a decidable, syntactic, closed-world check over `T` and
+the declarations of the environment. It is a SUFFICIENT condition for the generator to emit code.
+None of the C04 theorems needs it as a hypothesis: a well-typed value (`hasType`) has no chan / func
+/ interface component and no dangling name at any position the hash function visits, and the key
+type of a non-nil map value is comparable by `hasType`; so the theorems hold on every well-typed
+value. -/
+def SupportedHash (env : Env) (T : Ty) : Bool := Hash.okTy env T && Hash.envOk env
+
+/-! ## The main lemma in the form used by Props/C04.lean -/
+
+/-- structurally equal well-typed values hash alike; NaN-freeness of both sides follows from
+`structEq … = true` (and its symmetry) -/
+theorem hash_eq_of_structEq {env : Env} (hf : env.flagsOk = true) {T : Ty} {x y : Val}
+    (hx : hasType env T x = true) (hy : hasType env T y = true)
+    (he : Spec.structEq env T x y = true) : Hash.top env T x = Hash.top env T y := by
+  have nx := nanFree_left_of_structEq he
+  have ny : nanFree y = true := by
+    apply nanFree_left_of_structEq (env := env) (T := T) (y := x)
+    rw [← (symmOK hf x).val T y hx hy]; exact he
+  exact (hashOK hf x).top T y hx hy nx ny he
+
+/-! ## Evaluation on concrete data (the functions are defined by well-founded recursion, so
+`decide` cannot run them; `simp` with the unfolding lemmas can) -/
+
+/-- evaluate `Hash.top` on concrete data -/
+syntax "hash_eval" (" [" Lean.Parser.Tactic.simpLemma,* "]")? : tactic
+macro_rules
+  | `(tactic| hash_eval) => `(tactic| hash_eval [])
+  | `(tactic| hash_eval [$ls,*]) => `(tactic|
+      simp +decide [Hash.top_eq_topU, Hash.topU, Hash.inlinePtr, Hash.fields, Hash.elems,
+        Hash.entries, Hash.field_eq_top, Hash.leaf, Env.under, Env.skipMask, Env.decl?,
+        Ty.isNamed, sortEntries, insertEntry, cmpKey, cmpBytes, cmpInt, cmpBool, cmpFlt, fltEq,
+        fltLt, toU64, normBits, fltMag, mix, hashString, decodeRunes, decodeRunesAux, decodeRune,
+        isCont, runeError, $ls,*])
+
+/-! ## A concrete world for the non-vacuity examples of Props/C04.lean -/
+
+namespace C04
+set_option linter.unusedSimpArgs false
+
+/-!
+```go
+type Node struct { N int64; Next *Node; Tags []string; Pts map[string]Pt; F float64 }  // named 0
+type Pt   struct { X, Y float64 }                                                      // named 1
+type Ext  struct { Pub int64; priv int64 }      // named 2, declared in ANOTHER package
+```
+-/
+
+def env : Env := { decls := [
+  { under := .struct (.fcons (.basic (.int 64 true)) (.fcons (.ptr (.named 0))
+      (.fcons (.slice (.basic .string)) (.fcons (.map (.basic .string) (.named 1))
+      (.fcons (.basic (.float 64)) .fnil))))), canEq := false },
+  { under := .struct (.fcons (.basic (.float 64)) (.fcons (.basic (.float 64)) .fnil)),
+    canEq := true },
+  { under := .struct (.fcons (.basic (.int 64 true)) (.fcons (.basic (.int 64 true)) .fnil)),
+    canEq := true, external := true, priv := true, privMask := [false, true] } ] }
+
+def tNode : Ty := .named 0
+def tPt : Ty := .named 1
+def tExt : Ty := .named 2
+/-- `map[Pt]int64`: struct keys -/
+def tMapPt : Ty := .map (.named 1) (.basic (.int 64 true))
+
+-- IEEE-754 binary64 bit patterns
+def f0 : Nat := 0                          -- +0.0
+def fm0 : Nat := 9223372036854775808       -- -0.0
+def f1 : Nat := 4607182418800017408        -- 1.0
+def f2 : Nat := 4611686018427387904        -- 2.0
+def fnan : Nat := 9221120237041090560      -- NaN
+
+def pt (a b : Nat) : Val := .struct (.scons (.flt 64 a) (.scons (.flt 64 b) .snil))
+def node (n : Int) (next tags m : Val) (f : Nat) : Val :=
+  .struct (.scons (.int n) (.scons next (.scons tags (.scons m (.scons (.flt 64 f) .snil)))))
+def leaf : Val := node 2 .nilv .nilv .nilv f0
+def hi : Val := .str [104, 105]
+def ka : Val := .str [97]
+def kb : Val := .str [98]
+
+/-- `&Node{1, &Node{2}, []string{"hi"} (cap 4), map{"a": {+0, 1}, "b": {2, -0}}, -0}` -/
+def x1 : Val := node 1 (.ptr 10 leaf) (.slice 11 3 (.scons hi .snil))
+  (.map 12 (.scons (.pair ka (pt f0 f1)) (.scons (.pair kb (pt f2 fm0)) .snil))) fm0
+/-- the same contents at other addresses, no spare capacity, the map filled in the other order,
+every zero with the other sign -/
+def y1 : Val := node 1 (.ptr 20 leaf) (.slice 21 0 (.scons hi .snil))
+  (.map 22 (.scons (.pair kb (pt f2 f0)) (.scons (.pair ka (pt fm0 f1)) .snil))) f0
+/-- differs from `x1` in one leaf -/
+def z1 : Val := node 1 (.ptr 10 leaf) (.slice 11 3 (.scons hi .snil))
+  (.map 12 (.scons (.pair ka (pt f0 f1)) (.scons (.pair kb (pt f2 f2)) .snil))) fm0
+
+/-- `map[Pt]int64{{+0, 1}: 1, {2, -0}: 2}` -/
+def m1 : Val := .scons (.pair (pt f0 f1) (.int 1)) (.scons (.pair (pt f2 fm0) (.int 2)) .snil)
+/-- the same map filled in the other order -/
+def m2 : Val := .scons (.pair (pt f2 fm0) (.int 2)) (.scons (.pair (pt f0 f1) (.int 1)) .snil)
+/-- … and with keys that are `==` but not bit-identical -/
+def m3 : Val := .scons (.pair (pt f2 f0) (.int 2)) (.scons (.pair (pt fm0 f1) (.int 1)) .snil)
+
+theorem env_flagsOk : env.flagsOk = true := by decide
+theorem env_supported : Supported env tNode = true := by decide
+theorem env_supportedHash : SupportedHash env tNode = true := by decide
+theorem x1_typed : hasType env tNode x1 = true := by
+  goderive_eval [env, tNode, x1, node, leaf, pt, hi, ka, kb, f0, fm0, f1, f2]
+theorem y1_typed : hasType env tNode y1 = true := by
+  goderive_eval [env, tNode, y1, node, leaf, pt, hi, ka, kb, f0, fm0, f1, f2]
+theorem z1_typed : hasType env tNode z1 = true := by
+  goderive_eval [env, tNode, z1, node, leaf, pt, hi, ka, kb, f0, fm0, f1, f2]
+theorem x1_y1_structEq : Spec.structEq env tNode x1 y1 = true := by
+  goderive_eval [env, tNode, x1, y1, node, leaf, pt, hi, ka, kb, f0, fm0, f1, f2]
+theorem x1_z1_structEq : Spec.structEq env tNode x1 z1 = false := by
+  goderive_eval [env, tNode, x1, z1, node, leaf, pt, hi, ka, kb, f0, fm0, f1, f2]
+theorem x1_hash : Hash.top env tNode x1 = .ok 13407230646409729311 := by
+  hash_eval [env, tNode, x1, node, leaf, pt, hi, ka, kb, f0, fm0, f1, f2]
+theorem y1_hash : Hash.top env tNode y1 = .ok 13407230646409729311 := by
+  hash_eval [env, tNode, y1, node, leaf, pt, hi, ka, kb, f0, fm0, f1, f2]
+
+theorem m1_typed (a : Nat) : hasType env tMapPt (.map a m1) = true := by
+  goderive_eval [env, tMapPt, m1, pt, f0, fm0, f1, f2]
+theorem m2_typed (a : Nat) : hasType env tMapPt (.map a m2) = true := by
+  goderive_eval [env, tMapPt, m2, pt, f0, fm0, f1, f2]
+theorem m3_typed (a : Nat) : hasType env tMapPt (.map a m3) = true := by
+  goderive_eval [env, tMapPt, m3, pt, f0, fm0, f1, f2]
+theorem m1_perm_m2 : m1.toList.Perm m2.toList := by
+  simp only [m1, m2, Val.toList]; exact List.Perm.swap ..
+theorem m1_m3_structEq : Spec.structEq env tMapPt (.map 1 m1) (.map 2 m3) = true := by
+  goderive_eval [env, tMapPt, m1, m3, pt, f0, fm0, f1, f2]
+
+end C04
 
 end Goderive
